@@ -158,6 +158,84 @@ theorem arith_error_codes (ext : Ext) (l r : S) (c : Code) (hl : isErr l = none)
     · exact (tn l hl _ h1) ▸ h.symm ▸ rfl
   exact ⟨key _, key _, key _⟩
 
+/-! ### whole operator trees: an error anywhere is never swallowed, and nothing raises -/
+
+/-- an expression built from infix operators over scalar operands -/
+inductive OpTree | leaf (s : S) | node (op : BinOp) (l r : OpTree)
+
+/-- evaluation as `OperatorNode.eval` does it: both operands first, then the operator function -/
+def OpTree.eval (ext : Ext) : OpTree → OpR
+  | .leaf s => .val s
+  | .node op l r =>
+    match l.eval ext, r.eval ext with
+    | .val a, .val b => binop ext op a b
+    | .val _, o => o
+    | o, _ => o
+
+def OpTree.hasErr : OpTree → Prop
+  | .leaf s => ∃ c, s = .err c
+  | .node _ l r => l.hasErr ∨ r.hasErr
+
+def OpTree.leftmost : OpTree → S
+  | .leaf s => s
+  | .node _ l _ => l.leftmost
+
+/-- no operator tree raises a Python exception, whatever the operand types -/
+theorem tree_total (ext : Ext) (t : OpTree) (k : Crash) : t.eval ext ≠ .py k := by
+  induction t with
+  | leaf s => simp [OpTree.eval]
+  | node op l r ihl ihr =>
+    simp only [OpTree.eval]
+    cases hl : l.eval ext <;> cases hr : r.eval ext <;> simp_all
+    exact (ops_total ext _ _ k).1 op
+
+/-- the leftmost operand being an error decides the whole tree (the model has no non-finite VALUE: an
+    overflow elsewhere in the tree ends its evaluation with the `nonfinite` marker) -/
+theorem tree_leftmost_error (ext : Ext) (t : OpTree) (c : Code) (h : t.leftmost = .err c) :
+    t.eval ext = .val (.err c) ∨ t.eval ext = .nonfinite := by
+  induction t with
+  | leaf s => simp_all [OpTree.eval, OpTree.leftmost]
+  | node op l r ihl _ =>
+    simp only [OpTree.leftmost] at h
+    simp only [OpTree.eval]
+    rcases ihl h with hl | hl
+    · rw [hl]; cases hr : r.eval ext
+      · exact Or.inl (binop_error_left ext op c _)
+      · exact Or.inr rfl
+      · exact absurd hr (tree_total ext r _)
+    · rw [hl]; exact Or.inr (by cases r.eval ext <;> rfl)
+
+/-- **errors are never swallowed**: a tree with an error operand anywhere evaluates to an Excel error
+    or a non-finite marker raised earlier (left of it) — never to an ordinary value -/
+theorem tree_error_propagates (ext : Ext) (t : OpTree) (h : t.hasErr) :
+    (∃ c, t.eval ext = .val (.err c)) ∨ t.eval ext = .nonfinite := by
+  induction t with
+  | leaf s => obtain ⟨c, rfl⟩ := h; exact Or.inl ⟨c, rfl⟩
+  | node op l r ihl ihr =>
+    simp only [OpTree.eval]
+    rcases h with h | h
+    · rcases ihl h with ⟨c, hc⟩ | hc
+      · rw [hc]; cases hr : r.eval ext
+        · exact Or.inl ⟨c, binop_error_left ext op c _⟩
+        · exact Or.inr rfl
+        · exact absurd hr (tree_total ext r _)
+      · rw [hc]; exact Or.inr (by cases r.eval ext <;> rfl)
+    · cases hl : l.eval ext with
+      | py k => exact absurd hl (tree_total ext l k)
+      | nonfinite => exact Or.inr (by cases r.eval ext <;> rfl)
+      | val a =>
+        rcases ihr h with ⟨c, hc⟩ | hc
+        · rw [hc]
+          cases ha : isErr a with
+          | some d =>
+            have : a = .err d := by cases a <;> simp_all [isErr]
+            subst this; exact Or.inl ⟨d, binop_error_left ext op d _⟩
+          | none => exact Or.inl ⟨c, binop_error_right ext op a c ha⟩
+        · rw [hc]; exact Or.inr rfl
+
+example : (OpTree.node .add (.node .mul (.leaf (.num (.int 2))) (.leaf (.err .na))) (.leaf (.text "x".toList))).hasErr :=
+  Or.inl (Or.inr ⟨_, rfl⟩)
+
 /-! ### the `validate_args` wrapper: first error wins, for an arbitrary body -/
 
 /-- If every earlier argument validates and argument `i` is an Excel error, the wrapper returns that
